@@ -35,7 +35,9 @@ TECHNIQUE = "deterministic simulation, exhaustive exception codes x command x tr
 
 KS = {"quick": [0, 1], "thorough": [0, 1, 2, 3]}
 CMDS = [{"op": "read", "reg": 35100, "count": 8}, {"op": "write", "reg": 47510, "value": 1234},
-        {"op": "wmulti", "reg": 47515, "hex": "0000173b0064ff7f"}]
+        {"op": "wmulti", "reg": 47515, "hex": "0000173b0064ff7f"},
+        # a ready-made frame in a plain ProtocolCommand (what the documented Inverter.send_command() executes)
+        {"op": "raw", "reg": 35100, "count": 8}]
 SETTINGS = [(1.0, 3), (0.5, 1), (0.25, 3)]
 E2E_CODES = list(range(0, 13)) + [0x80, 0xFF]
 STD = {1: "ILLEGAL FUNCTION", 2: "ILLEGAL DATA ADDRESS", 3: "ILLEGAL DATA VALUE"}
